@@ -252,3 +252,121 @@ class EnsureBool(Contract):
     def counts(self, c, *a):
         y = a[-1]
         return (0, 0, 0) if isinstance(y, c.LinCombBool) else n_ac(c)
+
+
+# ---------------------------------------------------------------------------
+# comparisons, assertions and the remaining arithmetic of LinCombBool
+# ---------------------------------------------------------------------------
+
+class _BoolCmp(Contract):
+    """b <op> y for a LinCombBool b: order of the 0/1 values; y is brought to a boolean first."""
+    rel = None
+    modules = ("pysnark.runtime", "pysnark.boolean")
+
+    def configs(self, tier):
+        return [dict(mode=m, kind=k, bits=2) for m in ("plain", "g1", "g0") for k in ("b", "s", "k1", "k0")]
+
+    def setup(self, c, cfg):
+        apply_mode(c, cfg["mode"], bitlength=cfg["bits"])
+        return getattr(c.LinCombBool, self.name.rsplit(".", 1)[1]), (c.operand_bool("x"), _bool_operand(c, cfg["kind"], "y")), {}
+
+    def use_stub(self, c, *a):
+        return False
+
+    def raises(self, c, x, y):
+        out = []
+        if isinstance(y, c.LinComb):
+            out.append((ValueError, Not(is01(c.v(y)))))
+        return out
+
+    def post(self, c, r, x, y):
+        return {"V.type": isinstance(r, c.LinCombBool),
+                "V.value": Implies(And(isg(c), is01(c.v(x))), Eq(c.v(r), If(self.rel(c.v(x), _bv(c, y)), 1, 0))),
+                "V.inv": c.inv(r)}
+
+
+for _n, _rel in (("__lt__", lambda a, b: a < b), ("__le__", lambda a, b: a <= b), ("__gt__", lambda a, b: a > b),
+                 ("__ge__", lambda a, b: a >= b), ("__eq__", lambda a, b: a == b), ("__ne__", lambda a, b: a != b)):
+    register(type("BoolCmp" + _n.strip("_"), (_BoolCmp,), dict(name="pysnark.boolean:LinCombBool." + _n, rel=staticmethod(_rel))))
+
+
+class _BoolAssert(Contract):
+    rel = None
+    sprops = ("C03",)
+    vprops = ("C03",)
+    covers_normal = False      # b.assert_lt(0) and b.assert_gt(1) can never hold
+    modules = ("pysnark.runtime", "pysnark.boolean")
+
+    def configs(self, tier):
+        return [dict(mode=m, kind=k, bits=2) for m in ("plain", "ie") for k in ("b", "k1", "k0")]
+
+    def setup(self, c, cfg):
+        apply_mode(c, cfg["mode"], bitlength=cfg["bits"])
+        return getattr(c.LinCombBool, self.name.rsplit(".", 1)[1]), (c.operand_bool("x"), _bool_operand(c, cfg["kind"], "y")), {}
+
+    def use_stub(self, c, *a, **k):
+        return False
+
+    def raises(self, c, x, y, err=None):
+        return [(AssertionError, And(Not(ie(c)), Not(self.rel(c.v(x), _bv(c, y)))))]
+
+    def post(self, c, r, x, y, err=None):
+        ya = _ba(c, y) if not isinstance(y, int) else term(y)
+        tied = And(c.tied(x), *([c.tied(y)] if not isinstance(y, int) else []))
+        return {"E.enforced": Implies(And(on(c), tied), self.rel(c.v(x), _bv(c, y)))}
+
+
+for _n, _rel in (("assert_lt", lambda a, b: a < b), ("assert_le", lambda a, b: a <= b), ("assert_gt", lambda a, b: a > b),
+                 ("assert_ge", lambda a, b: a >= b), ("assert_eq", lambda a, b: a == b), ("assert_ne", lambda a, b: a != b)):
+    register(type("BoolAssert" + _n, (_BoolAssert,), dict(name="pysnark.boolean:LinCombBool." + _n, rel=staticmethod(_rel))))
+
+
+@register
+class BoolPow(Contract):
+    """b ** k for a LinCombBool: Python's 0/1 power (note 0 ** 0 == 1)."""
+    name = "pysnark.boolean:LinCombBool.__pow__"
+    modules = ("pysnark.runtime", "pysnark.boolean")
+
+    def configs(self, tier):
+        return [dict(mode="plain", k=k) for k in (0, 1, 3)]
+
+    def setup(self, c, cfg):
+        apply_mode(c, cfg["mode"])
+        return c.LinCombBool.__pow__, (c.operand_bool("x"), cfg["k"]), {}
+
+    def use_stub(self, c, *a, **k):
+        return False
+
+    def post(self, c, r, x, k, mod=None):
+        want = z3.IntVal(1) if k == 0 else c.v(x)
+        return {"V.python": Eq(c.v(r), want), "V.inv": c.inv(r)}
+
+
+class _BoolArith(Contract):
+    """b + y, b - y, b * y, y - b, -b: ordinary arithmetic on the 0/1 value (returns a LinComb)."""
+    spec = None
+    arity = 2
+    modules = ("pysnark.runtime", "pysnark.boolean")
+
+    def configs(self, tier):
+        return [dict(mode=m, kind=k) for m in ("plain", "g0") for k in (("s", "k") if self.arity == 2 else ("none",))]
+
+    def setup(self, c, cfg):
+        apply_mode(c, cfg["mode"])
+        fn = getattr(c.LinCombBool, self.name.rsplit(".", 1)[1])
+        if self.arity == 1:
+            return fn, (c.operand_bool("x"),), {}
+        y = c.operand("y") if cfg["kind"] == "s" else c.public_int("k")
+        return fn, (c.operand_bool("x"), y), {}
+
+    def use_stub(self, c, *a):
+        return False
+
+    def post(self, c, r, x, y=None):
+        yv = None if y is None else (c.v(y) if not isinstance(y, int) else term(y))
+        return {"V.type": isinstance(r, c.LinComb), "V.value": Eq(c.v(r), self.spec(c.v(x), yv)), "V.inv": c.inv(r)}
+
+
+for _n, _sp, _ar in (("__add__", lambda a, b: a + b, 2), ("__sub__", lambda a, b: a - b, 2), ("__rsub__", lambda a, b: b - a, 2),
+                     ("__mul__", lambda a, b: imul(a, b), 2), ("__neg__", lambda a, b: -a, 1)):
+    register(type("BoolArith" + _n.strip("_"), (_BoolArith,), dict(name="pysnark.boolean:LinCombBool." + _n, spec=staticmethod(_sp), arity=_ar)))
